@@ -215,14 +215,14 @@ func RInv(p *parser, top []any) bool {
 //@   loop 0: invariant[nts]    NTsOK(p.nonTerminals)
 //@   loop 0: invariant[tokens] len(p.nonTerminals) >= 1 && len(p.nonTerminals) == 1+reduce.NTok(p.stack, len(p.stack))
 //@   loop 0: decreases 3*lex.Remaining(p.lex) + len(p.stack)
-//@   loop 1: invariant[lexer]  p.lex != nil && lex.LexPub(p.lex) && p.defaultField == old(p.defaultField)
-//@   loop 1: invariant[elems]  reduce.ElemsOK(p.stack)
-//@   loop 1: invariant[nts]    NTsOK(p.nonTerminals)
-//@   loop 1: invariant[tokens] len(p.nonTerminals) >= 1 && len(p.nonTerminals) == 1+reduce.NTok(p.stack, len(p.stack))
+//@   loop "p.shouldShift(implAnd)": invariant[lexer]  p.lex != nil && lex.LexPub(p.lex) && p.defaultField == old(p.defaultField)
+//@   loop "p.shouldShift(implAnd)": invariant[elems]  reduce.ElemsOK(p.stack)
+//@   loop "p.shouldShift(implAnd)": invariant[nts]    NTsOK(p.nonTerminals)
+//@   loop "p.shouldShift(implAnd)": invariant[tokens] len(p.nonTerminals) >= 1 && len(p.nonTerminals) == 1+reduce.NTok(p.stack, len(p.stack))
 //@   ghost stackLen0 before "p.shouldShift(implAnd)": len(p.stack)
 //@   ghost remaining0 before "p.shouldShift(implAnd)": lex.Remaining(p.lex)
-//@   loop 1: invariant[progress] len(p.stack) <= stackLen0 && lex.Remaining(p.lex) == remaining0
-//@   loop 1: decreases len(p.stack)
+//@   loop "p.shouldShift(implAnd)": invariant[progress] len(p.stack) <= stackLen0 && lex.Remaining(p.lex) == remaining0
+//@   loop "p.shouldShift(implAnd)": decreases len(p.stack)
 //@   lemma leaf before "final.Op == expr.Literal": expr.LemmaParsedLeaf(final)
 //@   lemma scoped before "expr.Expr(p.defaultField, expr.Equals, final.Left)": expr.LemmaDefaultFieldTerm(p.defaultField, final.Left)
 //@   lemma pushand before "p.stack = append(p.stack, implAnd)": reduce.LemmaNTokPrefix(append(p.stack, implAnd), p.stack, len(p.stack))
